@@ -33,6 +33,16 @@ Fixpoint alias_apply (als : list (str * str)) (tg : tags) : tags :=
   | (t, av) :: r => alias_apply r (tag_set t av (tag_delete (t ++ alias_sfx) tg))
   end.
 
+(* a source-specific tag (every listed tag after the first) without an alias of
+   its own is dropped from the copy: it would give the copy the original's name
+   in that source (fix: commit) *)
+Fixpoint alias_drop (specific : list str) (als : list (str * str)) (tg : tags) : tags :=
+  match specific with
+  | [] => tg
+  | t :: r =>
+      alias_drop r als (match tag_lookup t als with Some _ => tg | None => tag_delete t tg end)
+  end.
+
 Definition set_aliases (origs als : list (str * str)) : list str :=
   sort_s (map (fun ta => fst ta ++ [61] ++ tag_get (fst ta) origs) als).
 
@@ -45,7 +55,7 @@ Definition alias_mangle (atags : list str) (sf : sfield) : outcome (list sfield)
   match als with
   | [] => Ok [sf]
   | _ =>
-      let atg := alias_apply als (sf_tags sf) in
+      let atg := alias_drop (tl atags) als (alias_apply als (sf_tags sf)) in
       let atg' := tag_set dialsdesc_tag (alias_desc origs als atg) atg in
       Ok [SF (sf_name sf) sft' (sf_anon sf) (sf_ty sf);
           SF (sf_name sf ++ alias_field_suffix) atg' (sf_anon sf) (sf_ty sf)]
